@@ -278,15 +278,17 @@ func runC09(c *core.Case) *core.Result {
 			}
 			pend := rep.Pending()
 			added := pend[pendBefore:]
-			if len(added) != executed+1 {
+			if len(added) < 2 && executed > 0 || len(added) > executed+1 {
+				// header + at most one operation per successful call (a call without effect may
+				// emit nothing); at least header + one operation when something was executed
 				return c.Violation(sh.typ+":unit-length", "a committed transaction that executed %d operations added %d operations to the pending list", executed, len(added))
 			}
 			hd, err := crdt.Decode(added[0])
 			if err != nil || hd.Type != model.TypeOfOperation_TRANSACTION {
 				return c.Violation(sh.typ+":unit-header", "the unit does not start with a TRANSACTION header: %v", added[0])
 			}
-			if int(hd.N) != executed+1 {
-				return c.Violation(sh.typ+":unit-count", "header announces %d operations, the unit has %d", hd.N, executed+1)
+			if int(hd.N) != len(added) {
+				return c.Violation(sh.typ+":unit-count", "header announces %d operations, the unit has %d", hd.N, len(added))
 			}
 			for i := 1; i < len(added); i++ {
 				if added[i].ID.Seq != added[i-1].ID.Seq+1 {
